@@ -80,6 +80,19 @@ func scalars(r *big.Int, rng *gen.Rng, nRand int, thorough bool, extraLambdaSqua
 			}
 		}
 	}
+	// scalars whose Montgomery form (s * 2^(64*limbs) mod r, the in-memory representation of an fr.Element) is short
+	// or sparse: m * R^-1 mod r for small and word-aligned m. Their integer value is full length; a routine that
+	// measures the wrong representation mis-sizes its loops on exactly these.
+	if r.BitLen() > 64 {
+		R := new(big.Int).Lsh(one, uint(64*((r.BitLen()+63)/64)))
+		if rinv := new(big.Int).ModInverse(R, r); rinv != nil {
+			for _, m := range []*big.Int{big.NewInt(1), big.NewInt(2), new(big.Int).Lsh(one, 63), new(big.Int).Lsh(one, 64), new(big.Int).Lsh(one, 127), new(big.Int).Lsh(one, 128), new(big.Int).Sub(new(big.Int).Lsh(one, 64), one)} {
+				v := new(big.Int).Mul(m, rinv)
+				pm(v.Mod(v, r), "montgomery-short")
+			}
+			// and the converse: short integers are the existing small / 2^k classes, whose Montgomery form is long
+		}
+	}
 	// same construction for other endomorphism eigenvalues lambda with lambda^2 = D mod r (bandersnatch: D = -2)
 	for _, D := range extraLambdaSquares {
 		if sq := new(big.Int).ModSqrt(new(big.Int).Mod(big.NewInt(D), r), r); sq != nil {
@@ -187,6 +200,10 @@ func runGroup(c *mon.Ctx, g *groups.Group) {
 				switch s.cls {
 				case "small", "-small", "r-1", "-r-1", "r", "r+1", "2^64", "-2^64", "2^255", "2^256", "-2^256", "2^257", "2^1000", "-2^4096-1", "2^4096":
 					sub = append(sub, si)
+				case "montgomery-short", "-montgomery-short":
+					if si%2 == 0 || c.Thorough() { // both scalars of a pair can be of this class
+						sub = append(sub, si)
+					}
 				}
 			}
 			for k := 0; k < len(S) && len(sub) < c.Pick(26, 60); k += 5 {
